@@ -60,15 +60,15 @@ Qed.
 
 (* every rename of a file or symlink (rich mode: of anything) whose old path is not an empty directory
    is emitted as `R old new` *)
-Theorem exporter_emits_renames (plain : bool) (old new : inv) (mpaths : list path) (o e : entry) :
+Theorem exporter_emits_renames (plain : bool) (old new : inv) (mpaths dpaths : list path) (o e : entry) :
   In o old -> find_entry new (e_id o) = Some e -> renamed_b o e = true ->
   negb (kind_eqb (e_kind e) KDir) || negb plain = true ->
   is_empty_dir old (opath old (e_id o)) = false ->
-  In (CR (opath old (e_id o)) (opath new (e_id o))) (fst (filecmds plain old new mpaths)).
+  In (CR (opath old (e_id o)) (opath new (e_id o))) (fst (filecmds plain old new mpaths dpaths)).
 Proof.
   intros HI HF HR HM HE. unfold filecmds, mod_cmds.
   destruct (process_renames_and_deletes plain (d_renamed old new) (d_removed old new) old) as [cmds rd] eqn:EP.
-  simpl.
+  simpl. apply in_or_app. right.
   destruct (process_cmds_split plain (d_renamed old new) (d_removed old new) old) as [s [Hs Hin]].
   rewrite EP in Hin. simpl in Hin. apply Hin. rewrite Hs.
   apply (fold_rename_emits_R plain old (d_renamed old new) _
@@ -141,15 +141,15 @@ Qed.
 
 (* every removed file or symlink (rich mode: every removed entry) is deleted by a `D old-path`, provided no
    directory is renamed in plain mode (a directory renamed onto a removed path swallows its D) *)
-Theorem exporter_emits_deletes (plain : bool) (old new : inv) (mpaths : list path) (o : entry) :
+Theorem exporter_emits_deletes (plain : bool) (old new : inv) (mpaths dpaths : list path) (o : entry) :
   In o old -> has_id new (e_id o) = false ->
   negb (kind_eqb (e_kind o) KDir) || negb plain = true ->
   (forall c, In c (d_renamed old new) -> emits plain c = true) ->
-  In (CD (opath old (e_id o))) (fst (filecmds plain old new mpaths)).
+  In (CD (opath old (e_id o))) (fst (filecmds plain old new mpaths dpaths)).
 Proof.
   intros HI HN HK HM. unfold filecmds, mod_cmds.
   destruct (process_renames_and_deletes plain (d_renamed old new) (d_removed old new) old) as [cmds rd] eqn:EP.
-  simpl.
+  simpl. apply in_or_app. right.
   set (ch := mkC (e_id o) (opath old (e_id o)) [] (Some o) None).
   assert (In ch (d_removed old new)) as HC.
   { unfold d_removed. apply In_sort_by. apply in_flat_map. exists o. split; [exact HI|]. rewrite HN. left. reflexivity. }
@@ -170,4 +170,21 @@ Proof.
     + destruct plain; simpl in *; [discriminate HK|left; reflexivity].
     + left. reflexivity.
   - apply in_or_app. left. exact Hc.
+Qed.
+
+(* a file or symlink that becomes a directory (same file id, same place) is deleted by a leading `D path` *)
+Theorem exporter_deletes_before_kind_change (plain : bool) (old new : inv) (mpaths dpaths : list path) (o e : entry) :
+  In o old -> find_entry new (e_id o) = Some e -> renamed_b o e = false ->
+  kind_eqb (e_kind o) KDir = false -> kind_eqb (e_kind e) KDir = true ->
+  In (CD (opath old (e_id o))) (fst (filecmds plain old new mpaths dpaths)).
+Proof.
+  intros HI HF HR HK HD. unfold filecmds.
+  destruct (mod_cmds plain old new) as [cmds mods]. simpl.
+  apply in_or_app. left. apply In_order_by. unfold kind_dels. apply in_flat_map.
+  exists (mkC (e_id o) (opath old (e_id o)) (opath new (e_id o)) (Some o) (Some e)).
+  split.
+  - unfold d_kind_changed. apply In_both; try assumption.
+    rewrite HR. simpl.
+    destruct (e_kind o), (e_kind e); simpl in *; try discriminate; reflexivity.
+  - simpl. rewrite HD. left. reflexivity.
 Qed.
